@@ -26,7 +26,7 @@ PROPS = {
                      "i32 <-> text conversions are uninterpreted with parse(print(n)) == Some(n)"],
     ),
     "C02": dict(
-        units=["store"],
+        units=["store", "consensus"],
         undecided=["interleavings of concurrent clients (set_value reads under one lock acquisition and writes under another): "
                    "lock elision makes every function sequential, so 'two writers never both succeed' is NOT decided"],
         assumptions=[],
@@ -46,9 +46,25 @@ PROPS = {
                      "HashMap::get_mut has a hand-written trusted specification (no vstd spec)",
                      "AtomicUsize::fetch_add is modelled as a wrapping add on a plain usize"],
     ),
+    "C13": dict(
+        units=["consensus"],
+        undecided=["order across several queued writes beyond one step, arbiter reconnects (register_arbiter's re-delivery loop is not under contract)",
+                   "primary/secondary forwarding of resolve, replicas holding the resolved value",
+                   "which $conflicts_ keys the listing returns (Database::list_keys is an iterator pipeline: trusted spec)"],
+        assumptions=["list_conflicts_keys / has_pendding_conflict are trusted (uninterpreted listing; every listed key is in the map)",
+                     "send_message_to_arbiter_client is trusted to hand exactly one message to the watchers of $conflicts",
+                     "texts built with format! are uninterpreted; trusted: the notice key differs from the conflicted key, a notice does not start with "
+                     "'resolved', 'resolved <v>' does"],
+    ),
+    "C19": dict(
+        units=["consensus"],
+        undecided=["two concurrent clients (lock elision)", "'applied in the primary's order on every node' (replication)"],
+        assumptions=["Change::new stamps the resolving change with the wall clock (any u64)"],
+    ),
     "C10": dict(
-        units=["store"],
-        reachable={"store": STORE_FNS},
+        units=["store", "consensus"],
+        reachable={"store": STORE_FNS, "consensus": ["Database::try_resolve_conflict_response", "apply_change_to_db_try_fix_conflicts",
+                   "set_key_value", "Database::resolve_conflit", "Database::has_arbiter_connected", "Change::new"]},
         undecided=["transport loops, dispatcher unwraps, lock poisoning propagation"],
         assumptions=[],
     ),
